@@ -1,8 +1,73 @@
 import ApolloModel.Model.Proto
-open Apollo Apollo.Proto
+import ApolloModel.Model.AsyncExec
+open Apollo Apollo.Proto Apollo.Async
 namespace Driver
 
 /-- streams of property C27 are named `c27.<name>` -/
-def c27 (_stream : String) (_fs : List String) : String := "unknown-stream"
+def takeTo (stop : Char) (cs : List Char) : String × List Char :=
+  (String.ofList (cs.takeWhile (· != stop)), (cs.dropWhile (· != stop)).drop 1)
+
+mutual
+/-- `L<v>;` | `E` | `O field* .` | `A item* .`  (harness/src/p27.rs `enc_plan`) -/
+def decPlan : Nat → List Char → Option (Plan × List Char)
+  | 0, _ => none
+  | f + 1, cs =>
+    match cs with
+    | 'L' :: r =>
+      let (n, r1) := takeTo ';' r
+      n.toNat?.map fun v => (.leaf v, r1)
+    | 'E' :: r => some (.error, r)
+    | 'O' :: r =>
+      match decFields f r with
+      | some (fs, r1) => some (.obj fs, r1)
+      | none => none
+    | 'A' :: r =>
+      match decItems f r with
+      | some (is, r1) => some (.list is, r1)
+      | none => none
+    | _ => none
+/-- `F<key>,<delay>,<plan>` … `.` -/
+def decFields : Nat → List Char → Option (Fields × List Char)
+  | 0, _ => none
+  | f + 1, cs =>
+    match cs with
+    | '.' :: r => some (.nil, r)
+    | 'F' :: r =>
+      let (key, r1) := takeTo ',' r
+      let (d, r2) := takeTo ',' r1
+      match d.toNat?, decPlan f r2 with
+      | some d, some (p, r3) =>
+        match decFields f r3 with
+        | some (tl, r4) => some (.cons key d p tl, r4)
+        | none => none
+      | _, _ => none
+    | _ => none
+/-- `I<delay>,<plan>` … `.` -/
+def decItems : Nat → List Char → Option (Items × List Char)
+  | 0, _ => none
+  | f + 1, cs =>
+    match cs with
+    | '.' :: r => some (.nil, r)
+    | 'I' :: r =>
+      let (d, r1) := takeTo ',' r
+      match d.toNat?, decPlan f r1 with
+      | some d, some (p, r2) =>
+        match decItems f r2 with
+        | some (tl, r3) => some (.cons d p tl, r3)
+        | none => none
+      | _, _ => none
+    | _ => none
+end
+
+def c27 (stream : String) (fs : List String) : String :=
+  match stream, fs with
+  | "c27.exec", [plan] =>
+    let cs := decodeField plan
+    match decFields (cs.length + 2) cs with
+    | some (root, []) =>
+      let (resp, log, polls) := execute root
+      resp.render ++ "|" ++ ",".intercalate log ++ "|" ++ toString polls
+    | _ => "bad-case"
+  | _, _ => "bad-case"
 
 end Driver
